@@ -48,6 +48,14 @@ def _pathbuf_push(I, f, a):
     return unit()
 
 
+@model("std::path::Path::join")
+def _path_join(I, f, a):
+    p = M.deref(I, a[0])
+    if isinstance(p, PathObj):
+        return PathObj(p.base, list(p.parts) + [M.deref(I, a[1])])
+    return Opaque("path")
+
+
 @model("<std::path::PathBuf as std::ops::Deref>::deref")
 def _pathbuf_deref(I, f, a):
     return a[0] if isinstance(a[0], Ref) else Ref(Box_(a[0], "path"), ())
@@ -68,6 +76,59 @@ def _create_dir(I, f, a):
 def _fs_write(I, f, a):
     I.run.event("fs_write", M.deref(I, a[0]), M.deref(I, a[1]))
     return ok(unit()) if I.run.choose(2, "fs::write ok") else err(Opaque("io::Error"))
+
+
+class FileObj:
+    def __init__(self, path):
+        self.path = path
+
+
+class BufW:
+    """BufWriter<File>: write_all only fills the buffer; the bytes reach the file at flush() - or at drop, where errors are lost"""
+
+    def __init__(self, inner):
+        self.inner = inner
+        self.pending = []
+
+
+@model("std::fs::File::create")
+def _file_create(I, f, a):
+    p = M.deref(I, a[0])
+    return ok(FileObj(p)) if I.run.choose(2, "File::create ok") else err(Opaque("io::Error"))
+
+
+@model("std::io::BufWriter::<W>::new", "std::io::BufWriter::<W>::with_capacity")
+def _bufwriter_new(I, f, a):
+    w = BufW(a[-1])
+    I.run.__dict__.setdefault("bufws", []).append(w)
+    return w
+
+
+@model("std::io::Write::write_all")
+def _write_all(I, f, a):
+    w = M.deref(I, a[0])
+    data = M.deref(I, a[1])
+    if isinstance(w, BufW):
+        w.pending.append(data)
+        return ok(unit())
+    if isinstance(w, FileObj):
+        I.run.event("fs_write", w.path, data)
+        return ok(unit()) if I.run.choose(2, "fs::write ok") else err(Opaque("io::Error"))
+    raise I.unanalysable("write_all on %r" % type(w).__name__)
+
+
+@model("std::io::Write::flush")
+def _write_flush(I, f, a):
+    w = M.deref(I, a[0])
+    if isinstance(w, BufW):
+        pend, w.pending = w.pending, []
+        if isinstance(w.inner, FileObj) and len(pend) == 1:
+            I.run.event("fs_write", w.inner.path, pend[0])
+            return ok(unit()) if I.run.choose(2, "fs::write ok") else err(Opaque("io::Error"))
+        if not pend:
+            return ok(unit())
+        raise I.unanalysable("flush of %d buffered pieces" % len(pend))
+    return ok(unit())
 
 
 @model("std::io::_print", "std::io::_eprint")
@@ -109,12 +170,27 @@ def _par_filter_map(I, f, a):
     return a[0]
 
 
+@model("rayon::iter::ParallelIterator::map")
+def _par_map(I, f, a):
+    a[0].f = a[1]
+    a[0].kind = "map"
+    return a[0]
+
+
 @model("rayon::iter::ParallelIterator::collect")
 def _par_collect(I, f, a):
     """one abstract element of the index space; the collected Vec is empty or not accordingly"""
     it = a[0]
     if I.truth(I.binop("Ge", it.lo, it.hi, "usize")):
         return M.VecObj([])
+    if getattr(it, "kind", None) == "map":
+        # map(..).collect::<Vec<_>>(): one abstract index stands for every sample; its outcome is the (only modelled) element
+        idx = Sym("idx", (), "usize", bounds(it.lo)[0], bounds(it.hi)[1] - 1, attrs={"name": "idx", "rel": [("lt_arg", 0)], "rel_args": [it.hi]})
+        I.run.event("par_call", idx)
+        r = I.call_closure(it.f, [idx])
+        if isinstance(r, Agg) and getattr(r, "vname", None) == "Err" or (isinstance(r, Agg) and r.adt == M.RESULT and r.variant == 1):
+            I.run.event("par_error", r.fields[0])
+        return M.VecObj([r])
     idx = Sym("idx", (), "usize", bounds(it.lo)[0], bounds(it.hi)[1] - 1, attrs={"name": "idx", "rel": [("lt_arg", 0)], "rel_args": [it.hi]})
     I.run.event("par_call", idx)
     r = I.call_closure(it.f, [idx])
@@ -189,7 +265,31 @@ def run_main(cc, mode, mutlist):
                 return ok(b)
             snaps[-1] = (g, None)
             return err(Opaque("eyre::Report"))
-        mods.extra["clap::Parser::parse"] = lambda I, f, a: cli
+        def st_parse(I, f, a):
+            # `Cli::parse()`, or a binary-local wrapper struct that flattens Cli and adds flags of its own (print-only
+            # switches): those extra fields are unknown values of their type
+            ty = ((f.get("res") or {}).get("impl_self") or (f.get("args") or [""])[0] or "")
+            if ty.endswith("cli::Cli") or ty.split("::")[-1] == "Cli" or ty == "":
+                return cli
+            try:
+                adt = prog.adt_of(ty)
+            except Unanalysable:
+                adt = None
+            d = prog.adts.get(adt) if adt is not None else None
+            if d is None or len(d["variants"]) != 1:
+                raise I.unanalysable("clap::Parser::parse for %s" % ty)
+            flds = []
+            ncli = 0
+            for fd in d["variants"][0]["fields"]:
+                if str(fd["ty"]).endswith("cli::Cli") or str(fd["ty"]).split("::")[-1] == "Cli":
+                    flds.append(cli)
+                    ncli += 1
+                else:
+                    flds.append(G.generic_unknown(prog, "app." + fd["name"], fd["ty"], []))
+            if ncli != 1:
+                raise I.unanalysable("clap::Parser::parse for %s: %d fields of type Cli" % (ty, ncli))
+            return Agg(adt, 0, flds)
+        mods.extra["clap::Parser::parse"] = st_parse
         I = Interp(prog, run, mods, stubs={k_gen: st_generate})
         one.last = (I, vals, snaps, None)
         r = I.call(k_main, [])
@@ -429,6 +529,10 @@ def rule_C13(env):
                         res.add("R13.d", "%s/panic" % mode, "main() can panic in %s mode: %s" % (mode, lf["end"].info), "src/main.rs")
                     continue
                 evs = lf["run"].events
+                for bw in getattr(lf["run"], "bufws", []):
+                    if bw.pending:
+                        res.add("R13.d", "%s/unflushed-buffer" % mode, "%s mode hands the bytes to a BufWriter that is dropped without flush(): a failing write is "
+                                "discarded in Drop, the run reports success with an empty or truncated file" % mode, "src/main.rs")
                 writes = [e for e in evs if e[0] == "fs_write"]
                 gens = [s for s in lf["snaps"]]
                 ret_ok = getattr(lf["ret"], "vname", None) == "Ok"
@@ -1027,6 +1131,167 @@ def shell_rules(env, res):
     return n
 
 
+class PyUnsupported(Exception):
+    pass
+
+
+def py_paths(meths, fn, max_paths=256):
+    """symbolic paths of a method of PickleMutator: [{ret, native_calls, bad_args, handled, reconfigured}]"""
+    results = []
+
+    class Ret(Exception):
+        def __init__(self, v):
+            self.v = v
+
+    class Raised(Exception):
+        pass
+
+    def explore(script):
+        st = {"pos": 0, "script": list(script), "trace": [], "native": 0, "bad": False, "handled": False, "reconf": False}
+
+        def choose(n):
+            if st["pos"] < len(st["script"]):
+                c = st["script"][st["pos"]]
+            else:
+                c = 0
+                st["script"].append(0)
+            st["pos"] += 1
+            st["trace"].append(n)
+            return c
+
+        def ev(e, env):
+            if isinstance(e, ast.Constant):
+                return ("const", e.value)
+            if isinstance(e, ast.Name):
+                if e.id in env:
+                    return env[e.id]
+                return ("global", e.id)
+            if isinstance(e, ast.Attribute):
+                base = ev(e.value, env)
+                return ("attr", base, e.attr)
+            if isinstance(e, ast.Subscript):
+                v = ev(e.value, env)
+                sl = e.slice
+                if isinstance(sl, ast.Slice) and sl.lower is None and sl.step is None and sl.upper is not None:
+                    up = ev(sl.upper, env)
+                    return ("prefix", v, up[1] if up[0] == "param" else up)
+                return ("subscript", v)
+            if isinstance(e, ast.Compare) or isinstance(e, ast.BoolOp) or isinstance(e, ast.UnaryOp):
+                for sub in ast.iter_child_nodes(e):
+                    if isinstance(sub, ast.expr):
+                        ev(sub, env)
+                return ("unknown-bool",)
+            if isinstance(e, ast.BinOp):
+                return ("binop", type(e.op).__name__, ev(e.left, env), ev(e.right, env))
+            if isinstance(e, ast.IfExp):
+                ev(e.test, env)
+                return ev(e.body, env) if choose(2) == 0 else ev(e.orelse, env)
+            if isinstance(e, ast.JoinedStr):
+                return ("str",)
+            if isinstance(e, ast.Call):
+                f = e.func
+                args = [ev(a, env) for a in e.args]
+                if isinstance(f, ast.Attribute):
+                    tgt = ev(f.value, env)
+                    if tgt == ("attr", ("param", "self"), "generator"):
+                        if f.attr == "generate_from_bytes":
+                            st["native"] += 1
+                            if args != [("param", "data")] or e.keywords:
+                                st["bad"] = True
+                            if choose(2) == 1:
+                                raise Raised()
+                            return ("native",)
+                        if f.attr in ("reset", "set_opcode_range", "generate"):
+                            st["reconf"] = True
+                            return ("unknown",)
+                        raise PyUnsupported("call self.generator.%s" % f.attr)
+                    if tgt in (("param", "self"), ("global", "PickleMutator")) and f.attr in meths:
+                        return call(meths[f.attr], args, e.keywords, env, bound=(tgt == ("param", "self")))
+                    return ("unknown",)
+                if isinstance(f, ast.Name) and f.id in ("len", "min", "max", "bytes", "int", "isinstance", "print"):
+                    return ("unknown",)
+                raise PyUnsupported("call %s" % ast.unparse(f))
+            raise PyUnsupported(type(e).__name__)
+
+        def call(m, args, kws, env, bound=True):
+            params = [a.arg for a in m.args.args]
+            static = any(isinstance(d, ast.Name) and d.id == "staticmethod" for d in m.decorator_list)
+            loc = {}
+            if not static:
+                loc[params[0]] = ("param", "self")
+                params = params[1:]
+            for p_, a_ in zip(params, args):
+                loc[p_] = a_
+            for kw in kws:
+                loc[kw.arg] = ev(kw.value, env)
+            for p_ in params:
+                loc.setdefault(p_, ("default", p_))
+            try:
+                run(m.body, loc)
+            except Ret as r:
+                return r.v
+            return ("const", None)
+
+        def run(body, env):
+            for stt in body:
+                if isinstance(stt, ast.Expr):
+                    if not isinstance(stt.value, ast.Constant):
+                        ev(stt.value, env)
+                elif isinstance(stt, ast.Assign) and len(stt.targets) == 1 and isinstance(stt.targets[0], ast.Name):
+                    env[stt.targets[0].id] = ev(stt.value, env)
+                elif isinstance(stt, ast.AnnAssign) and isinstance(stt.target, ast.Name) and stt.value is not None:
+                    env[stt.target.id] = ev(stt.value, env)
+                elif isinstance(stt, ast.Return):
+                    raise Ret(ev(stt.value, env) if stt.value is not None else ("const", None))
+                elif isinstance(stt, ast.If):
+                    ev(stt.test, env)
+                    run(stt.body if choose(2) == 0 else stt.orelse, env)
+                elif isinstance(stt, ast.Try):
+                    try:
+                        run(stt.body, env)
+                    except Raised:
+                        if not stt.handlers:
+                            raise
+                        st["handled"] = True
+                        run(stt.handlers[0].body, env)
+                    run(stt.finalbody, env)
+                elif isinstance(stt, (ast.Pass, ast.Delete)):
+                    pass
+                elif isinstance(stt, ast.Raise):
+                    raise Raised()
+                else:
+                    raise PyUnsupported(type(stt).__name__)
+
+        params = [a.arg for a in fn.args.args]
+        env = {params[0]: ("param", "self")}
+        for p_ in params[1:]:
+            env[p_] = ("param", p_)
+        out = {"ret": None, "handled": False}
+        try:
+            run(fn.body, env)
+            ret = ("const", None)
+        except Ret as r:
+            ret = r.v
+        except Raised:
+            ret = ("raised",)
+            st["handled"] = True
+        if ret and ret[0] == "prefix" and ret[2] != "max_size":
+            ret = ("prefix", ret[1], ret[2])
+        results.append({"ret": ret, "native_calls": st["native"], "bad_args": st["bad"], "handled": st["handled"], "reconfigured": st["reconf"]})
+        return st
+
+    stack = [[]]
+    while stack:
+        sc = stack.pop()
+        stt = explore(sc)
+        for i in range(len(sc), len(stt["trace"])):
+            for alt in range(1, stt["trace"][i]):
+                stack.append(stt["script"][:i] + [alt])
+        if len(results) > max_paths:
+            raise PyUnsupported("too many paths")
+    return results
+
+
 def fuzzer_py_rules(env, res):
     path = os.path.join(env.repo, "python", "pickle_fuzzer", "fuzzer.py")
     n = 0
@@ -1059,27 +1324,35 @@ def fuzzer_py_rules(env, res):
     if not mut:
         res.add("R13.f", "fuzzer.py/mutate", "PickleMutator.mutate not found", "python/pickle_fuzzer/fuzzer.py")
         return n
-    # inside the try: result = self.generator.generate_from_bytes(data); return result or result[:max_size]
-    src = ast.unparse(mut)
-    calls = [nd for nd in ast.walk(mut) if isinstance(nd, ast.Call) and isinstance(nd.func, ast.Attribute) and nd.func.attr.startswith("generate")]
-    if len(calls) != 1 or calls[0].func.attr != "generate_from_bytes" or [getattr(a, "id", None) for a in calls[0].args] != ["data"]:
-        res.add("R13.f", "fuzzer.py/mutate/call", "mutate() must call self.generator.generate_from_bytes(data) exactly once", "python/pickle_fuzzer/fuzzer.py")
-    tr = [nd for nd in ast.walk(mut) if isinstance(nd, ast.Try)]
-    rets = []
-    if tr:
-        for nd in ast.walk(ast.Module(body=tr[0].body, type_ignores=[])):
-            if isinstance(nd, ast.Return):
-                rets.append(ast.unparse(nd.value))
-    allowed = {"result", "result[:max_size]"}
-    if not rets or not set(rets) <= allowed:
-        res.add("R13.f", "fuzzer.py/mutate/return", "mutate() must return the native result or its [:max_size] prefix; returns %r" % rets, "python/pickle_fuzzer/fuzzer.py")
-    if any(isinstance(nd, ast.Call) and isinstance(nd.func, ast.Attribute) and nd.func.attr in ("reset", "set_opcode_range") for nd in ast.walk(mut)):
-        res.add("R13.f", "fuzzer.py/mutate/extra-call", "mutate() reconfigures or resets the generator", "python/pickle_fuzzer/fuzzer.py")
+    # mutate(data, max_size, ...) is evaluated symbolically over the small Python subset it is written in (helper methods of the
+    # class are inlined; unknown conditions fork): on every path that ends without an exception handler having run, the value
+    # returned is the result R of exactly one self.generator.generate_from_bytes(data) call, or its prefix R[:max_size]
+    try:
+        outcomes = py_paths(meths, mut)
+    except PyUnsupported as e:
+        res.add("R13.f", "fuzzer.py/mutate/unsupported", "mutate() uses a construct outside the analysed Python subset: %s" % e, "python/pickle_fuzzer/fuzzer.py")
+        outcomes = []
+    for o in outcomes:
+        n += 1
+        res.count("R13.f.paths")
+        if o["handled"]:
+            continue          # the fallback after a generator error is not the library's pickle anyway
+        if o["native_calls"] != 1 or o["bad_args"]:
+            res.add("R13.f", "fuzzer.py/mutate/call", "mutate() must call self.generator.generate_from_bytes(data) exactly once on every successful path "
+                    "(found %d calls%s)" % (o["native_calls"], ", with other arguments" if o["bad_args"] else ""), "python/pickle_fuzzer/fuzzer.py")
+        if o["ret"] not in (("native",), ("prefix", ("native",), "max_size")):
+            res.add("R13.f", "fuzzer.py/mutate/return", "mutate() must return the native result or its [:max_size] prefix; a successful path returns %r" % (o["ret"],),
+                    "python/pickle_fuzzer/fuzzer.py")
+        if o["reconfigured"]:
+            res.add("R13.f", "fuzzer.py/mutate/extra-call", "mutate() reconfigures or resets the generator", "python/pickle_fuzzer/fuzzer.py")
     # __init__.py re-exports the native Generator
     try:
         init_src = open(os.path.join(env.repo, "python", "pickle_fuzzer", "__init__.py")).read()
         n += 1
-        if not re.search(r"from pickle_fuzzer\._native import Generator", init_src):
+        it = ast.parse(init_src)
+        reexp = any(isinstance(x, ast.ImportFrom) and (x.module or "").endswith("_native") and any(al.name == "Generator" and al.asname in (None, "Generator") for al in x.names)
+                    for x in it.body)
+        if not reexp:
             res.add("R13.f", "__init__.py/Generator", "python package does not re-export the native Generator", "python/pickle_fuzzer/__init__.py")
     except OSError:
         res.add("R13.f", "__init__.py/missing", "python/pickle_fuzzer/__init__.py missing")
